@@ -1180,6 +1180,31 @@ theorem translated_cron_timing_hourly_gap (htod : ∀ t, 0 ≤ todS P t ∧ todS
     (hs : SortedTT P tt) (hh : Hourly P tt) (i : Nat) (hi : i < tt.length) : nextGap P tt i ≤ 3600 :=
   gap_le_hour htod tt hs hh i hi
 
+/- FULL STATEMENT (not proved): for every block registered with the service and every instant `t` that is not within
+   `lamServe` after a boundary of its configuration, the block's output at `t` is `pred cal cfg t` – i.e. hypothesis
+   S2 (`coverage`) of `accepted_trace_correct` derived from `TimedEnv` and the translated loop instead of trace
+   acceptance.  Missing: (a) the instantiation of `T`, `DT`, `abs`, `todS` with integer microseconds; (b) every
+   boundary of a registered block is an instant of the loop's timetable (from
+   `translated_cron_timedate_reconfig_registers_boundaries`, `…_timespan_reconfig_registers_alarm_times`,
+   `…_reload_rebuilds_timetable`, `pred_piecewise_constant`); (c) a world model in which `recalc blk r` sets the
+   block's output to `pred cal cfg r` (`translated_cron_timedate_recalc_is_pred`).  (b) + (c) are the hypothesis
+   `hconst` / the reading `pr (abs r)` below. -/
+/-- PARTIAL connection to the acceptance predicate: for a quantity `pr` of the wall clock that can change only at
+    instants of the timetable (`hconst`: constant from `A` up to the next instant `A + nextGap`), the value computed
+    from the reading of a SERVED pass is the right one at every instant from `UP + m·J` (at most `lamServe` after
+    `A` without jumps) until the next alarm instant -/
+theorem translated_cron_timing_value_right_until_next_alarm_partial (E : TimedEnv P) (tt : List T) (n i : Nat)
+    (a : T) (A G g off0 UP m : Rat) (L' : MtLocals T DT) (w' : σ) (hlen : tt.length = n) (hi : i < n)
+    (hget : tt[i]? = some a) (ok : TTok P tt g G) (kA : Int) (hA : A = (kA : Rat) * secPerDay + todS P a)
+    (h : PassOutcome E tt n i a A G off0 UP m L' w') (hs : L'.v2 = false) (hs6 : L'.v6 ≠ none)
+    (pr : Rat → Bool)
+    (hconst : ∀ x y, A ≤ x → x ≤ y → y < A + nextGap P tt i → pr x = pr y)
+    (t : Rat) (ht1 : UP + m * E.J ≤ t) (ht2 : t < A + nextGap P tt i) :
+    pr t = pr (E.abs L'.v7) := by
+  obtain ⟨_, _, _, _, h1, _, h3, _⟩ :=
+    served_next E tt n i a A G g off0 UP m L' w' hlen hi hget ok kA hA h hs hs6
+  exact (hconst (E.abs L'.v7) t h1 (by linarith) ht2).symm
+
 /-- what `wp` demands of an awaited sleep: it is positive and at most `M` (so `wp E G …` = no stall), and of an
     exception: that it does not happen -/
 theorem translated_cron_timing_wp_bounds_sleeps (E : TimedEnv P) (M d : Rat) (Φ : MtLocals T DT → σ → Prop)
@@ -1226,6 +1251,26 @@ open Edzed.Cron.Demo in
 /-- the timetable of exactly the 24 full hours (times of day = `Fin 24`) is sorted and hourly: every gap ≤ 1 h -/
 example (i : Nat) (hi : i < (List.finRange 24).length) : nextGap hoursP (List.finRange 24) i ≤ 3600 :=
   translated_cron_timing_hourly_gap hours_range (List.finRange 24) hours_sorted hours_hourly i hi
+
+open Edzed.Cron.Demo in
+/-- the 08:00 alarm of the demo timetable served with the reading 08:00:00.0005 (`Demo.demo_outcome`): a quantity
+    that changes at 08:00 and 16:00 only is right from 08:00:00.002 until 16:00 -/
+example (t : Rat) (h1 : 28800 + 2 / 1000 + 7 * demoE.J ≤ t) (h2 : t < 28800 + nextGap demoP demoTT 1) :
+    (fun x : Rat => decide (28800 ≤ x ∧ x < 57600)) t
+      = (fun x : Rat => decide (28800 ≤ x ∧ x < 57600)) (demoE.abs demoL'.v7) :=
+  translated_cron_timing_value_right_until_next_alarm_partial demoE demoTT 3 1 t08 28800 28800 28800 0
+    (28800 + 2 / 1000) 7 demoL' (28800 + 6 / 10000) rfl (by omega) rfl demo_ttok 0 demo_A demo_outcome rfl
+    (by simp [demoL']) _
+    (by
+      intro x y hx hxy hy
+      have e : nextGap demoP demoTT 1 = 28800 := by
+        simp [nextGap, demoTT, tod_demo, t16, t08]; norm_num
+      rw [e] at hy
+      have a1 : 28800 ≤ x ∧ x < 57600 := ⟨hx, by linarith⟩
+      have a2 : 28800 ≤ y ∧ y < 57600 := ⟨by linarith, by linarith⟩
+      show decide (28800 ≤ x ∧ x < 57600) = decide (28800 ≤ y ∧ y < 57600)
+      rw [decide_eq_true a1, decide_eq_true a2])
+    t h1 h2
 
 /-! ### the "sleeps for a day" defect (repaired by 5cd81d8) as a machine-checked counterexample -/
 
